@@ -19,7 +19,7 @@ POOLS = {"quick": ["s"], "thorough": ["s", "n", "q"]}
 KEY = {"C12": "c12", "C13": "c13", "C14": "c14", "C07": "c07", "C15": "c15"}
 
 
-def _validate(out, prop, trace, tag):
+def _validate(out, prop, trace, tag, only_why=None):
     """Run Trace_Dom.tla over an ndjson trace; feed the verdicts of `prop` into `out`."""
     n = C.count_lines(trace)
     if n <= 1:
@@ -50,6 +50,8 @@ def _validate(out, prop, trace, tag):
             continue
         pv = v.get(k, {})
         if pv.get("v") in ("ok", "skip", None):
+            continue
+        if only_why is not None and pv.get("why") not in only_why:
             continue
         if events is None:
             events = C.read_ndjson(trace)
@@ -101,7 +103,7 @@ def merged_histories(out, prop, tier, wd):
     return st["steps"]
 
 
-def c15_histories(out, prop, tier, wd):
+def c15_histories(out, prop, tier, wd, only_why=None):
     """C15 over structural histories: random insertions / removals / attribute edits over a pool whose character data is
     harmless node by node and dangerous in combination; after every successful state-changing call the document is
     printed, re-parsed and both content signatures are logged; Trace_Dom.tla (c15) judges"""
@@ -110,7 +112,7 @@ def c15_histories(out, prop, tier, wd):
     so, crashed = C.run_harness_watched(["dom-record", "--out", rec, "--histories", str(nh), "--len", str(ln),
                                          "--seed", str(C.seed()), "--c15"], rec, timeout=3000)
     st = {"steps": 0, "queries": 0} if crashed else json.loads(so.strip().splitlines()[-1])
-    n = _validate(out, prop, rec, "c15hist")
+    n = _validate(out, prop, rec, "c15hist", only_why)
     os.unlink(rec)
     return st["steps"], st["queries"]
 
@@ -189,13 +191,25 @@ def run(prop, tier):
             msteps = merged_histories(out, prop, tier, wd)
             out.extra["merged_view_history_steps"] = msteps
             extra_eval += msteps
+        if prop in ("C12", "C13"):
+            # histories over the pool with entity references (one whose replacement text holds markup and is refused by
+            # an attribute, one that is accepted) and adjacent character data: the refused insertions are where a
+            # failing call can leave a node unlinked or with a stale parent (seeded defect C12-r6m1)
+            # C13: Dom.tla does not model the well-formedness refusals of this pool (an entity whose replacement text
+            # holds markup is refused by an attribute with HIERARCHY_REQUEST_ERR - C15 asks for exactly that refusal, DOM
+            # Level 1 names no class for it), so only what holds for ANY refusal is judged here: no panic, and a failing
+            # call leaves the observable state as it was
+            c13_only = ["panic", "a failing call changed the observable state"] if prop == "C13" else None
+            esteps, _ = c15_histories(out, prop, tier, wd, c13_only)
+            out.extra["entity_reference_history_steps"] = esteps
+            extra_eval += esteps
         if prop == "C13":
             # value / data setters and the create_* factories (exception classes, no panic, atomic failure)
             import domtext
             tot = domtext.run_chardata(out, prop, tier, wd)
             names = domtext.run_factory(out, prop, tier, wd)
             attr_events = domtext.run_attrs(out, prop, tier, wd)
-            extra_eval = tot["events"] + 4 * names + attr_events
+            extra_eval += tot["events"] + 4 * names + attr_events
             out.extra.update({"chardata_events": tot["events"], "factory_names": names})
         out.evaluations = edges + walk_steps + rstats["steps"] + extra_eval
         out.nontrivial_count = edges
